@@ -41,7 +41,8 @@ INT_TYPES = {
 }
 SIZEOF = {"char": 1, "signed char": 1, "unsigned char": 1, "short": 2, "unsigned short": 2, "int": 4,
           "unsigned int": 4, "long": 8, "unsigned long": 8, "long long": 8, "unsigned long long": 8,
-          "float": 4, "double": 8, "_Bool": 1, "bool": 1, "void": 1}
+          "float": 4, "double": 8, "_Bool": 1, "bool": 1, "void": 1,
+          "rtosc_arg_val_t": 24}      # one slot of an argument-value list (type tag + 16-byte union), for pointer steps
 
 
 for _n, _b, _s in (("uint8_t", 8, False), ("int8_t", 8, True), ("uint16_t", 16, False), ("int16_t", 16, True),
@@ -336,6 +337,15 @@ class Eval:
                         self.env.pop(d["id"], None)
             return
         if k == "IfStmt":
+            # `if(T x = e)` / `if(init; cond)`: the declaration / init statement comes first in the node
+            lead = 0
+            if n.get("hasInit"):
+                self.run(ks[lead])
+                lead += 1
+            if n.get("hasVar"):
+                self.run(ks[lead])
+                lead += 1
+            ks = ks[lead:]
             if self.ev(ks[0]):
                 self.run(ks[1])
             elif len(ks) > 2:
